@@ -37,6 +37,7 @@ type RunConfig struct {
 	Confirm       bool           `json:"confirm_second_solver,omitempty"`
 	RequireReach  []string       `json:"require_reach,omitempty"`
 	Workers       int            `json:"workers,omitempty"`
+	NoMerge       bool           `json:"no_if_conversion,omitempty"`
 }
 
 func (c *RunConfig) defaults() {
@@ -76,6 +77,7 @@ type Engine struct {
 	rtErrType      types.Type
 	opaqueErr      types.Type
 	overlay        map[string][]byte
+	pureNames      map[string]bool
 	loadSeconds    float64
 }
 
